@@ -549,6 +549,10 @@ pub fn program(kinds: &[&str], rng: &mut Rng) -> String {
             }
         }
     }
+    // pipeline names are case sensitive: a second pipeline that differs from P0 only in case
+    if rng.chance(1, 3) {
+        out.push_str("void cs_lower_case() {}\nPipeline p0\n{\n    ComputeShader = cs_lower_case;\n}\n");
+    }
     out
 }
 
@@ -559,18 +563,67 @@ fn compiles(src: &str, target: Target, buffer_address: bool) -> Result<(), Strin
     let ex = crate::exec::ExecSpec::single((7, 9), crate::plan::STACK_MAIN, t);
     let res = crate::exec::run_exec(&ex, std::slice::from_ref(&fs));
     let r = &res.results[0][0];
-    if r.kind == crate::exec::OutcomeKind::Ok {
+    // a panic is not a rejection: the block stays in the workload so that the campaign meets,
+    // attributes and reports it
+    if r.kind != crate::exec::OutcomeKind::Err {
         Ok(())
     } else {
         Err(r.text.lines().take(3).collect::<Vec<_>>().join(" | "))
     }
 }
 
-/// Block kinds the real front end accepts today (fault-free, every target), with notes about
-/// the ones that were dropped
+/// Does the real front end accept this block kind today (fault-free, every target)? Runs rssl in
+/// the calling process: only the `w2-validate` subcommand calls it, in a process of its own.
+pub fn validate_kind_here(k: &str) -> Result<(), String> {
+    for trial in 0..3u64 {
+        let mut rng = Rng::new(0xB10C).sub_n(k, trial);
+        let src = program(&[k], &mut rng);
+        for (target, ba) in [(Target::Dx, false), (Target::Vk, true), (Target::Msl, false)] {
+            if k == "bind_groups" && target != Target::Vk {
+                continue;
+            }
+            if let Err(e) = compiles(&src, target, ba) {
+                return Err(format!(
+                    "W2 block '{k}' dropped: does not compile for {} ({e})",
+                    target.name()
+                ));
+            }
+        }
+    }
+    Ok(())
+}
+
+pub const KINDS_ENV: &str = "RSSL_SIM_W2KINDS";
+
+/// The value workers inherit so that they do not validate again
+pub fn kinds_env_value() -> String {
+    let (ok, notes) = valid_kinds();
+    let mut v = ok.join(",");
+    for n in notes {
+        v.push('\n');
+        v.push_str(&n.replace('\n', " "));
+    }
+    v
+}
+
+/// Block kinds the real front end accepts today, with notes about the ones that were dropped.
+/// Each kind is validated in a process of its own (a kind whose validation kills the process is
+/// kept: the campaign then attributes the death to a case and reports it), once per campaign:
+/// the supervisor hands the answer to its workers through the environment.
 pub fn valid_kinds() -> &'static (Vec<&'static str>, Vec<String>) {
     static V: OnceLock<(Vec<&'static str>, Vec<String>)> = OnceLock::new();
     V.get_or_init(|| {
+        if let Ok(v) = std::env::var(KINDS_ENV) {
+            let mut lines = v.split('\n');
+            let first = lines.next().unwrap_or("");
+            let ok: Vec<&'static str> = BLOCK_KINDS
+                .iter()
+                .copied()
+                .filter(|k| first.split(',').any(|x| x == *k))
+                .collect();
+            return (ok, lines.map(|l| l.to_string()).collect());
+        }
+        let exe = std::env::current_exe().ok();
         let mut ok = Vec::new();
         let mut notes = Vec::new();
         for k in BLOCK_KINDS {
@@ -578,29 +631,29 @@ pub fn valid_kinds() -> &'static (Vec<&'static str>, Vec<String>) {
                 ok.push(*k);
                 continue;
             }
-            let mut good = true;
-            for trial in 0..3u64 {
-                let mut rng = Rng::new(0xB10C).sub_n(k, trial);
-                let src = program(&[k], &mut rng);
-                for (target, ba) in [(Target::Dx, false), (Target::Vk, true), (Target::Msl, false)] {
-                    if *k == "bind_groups" && target != Target::Vk {
-                        continue;
-                    }
-                    if let Err(e) = compiles(&src, target, ba) {
-                        notes.push(format!(
-                            "W2 block '{k}' dropped: does not compile for {} ({e})",
-                            target.name()
-                        ));
-                        good = false;
-                        break;
+            let out = exe.as_ref().and_then(|exe| {
+                std::process::Command::new(exe)
+                    .args(["w2-validate", k])
+                    .stdin(std::process::Stdio::null())
+                    .stderr(std::process::Stdio::null())
+                    .output()
+                    .ok()
+            });
+            match out {
+                Some(o) if o.status.success() => {
+                    let text = String::from_utf8_lossy(&o.stdout);
+                    match text.lines().find_map(|l| l.strip_prefix("ERR ")) {
+                        Some(e) => notes.push(e.to_string()),
+                        None => ok.push(*k),
                     }
                 }
-                if !good {
-                    break;
+                other => {
+                    notes.push(format!(
+                        "W2 block '{k}': the validating process did not finish ({}); kept in the workload",
+                        other.map(|o| o.status.to_string()).unwrap_or_else(|| "not started".into())
+                    ));
+                    ok.push(*k);
                 }
-            }
-            if good {
-                ok.push(*k);
             }
         }
         (ok, notes)
@@ -665,7 +718,7 @@ pub fn scenario(rng: &mut Rng, i: u64) -> (String, FsSpec, TaskSpec) {
     t.validate_layout = rng.chance(1, 2);
     match rng.below(6) {
         0 => t.no_pipeline = true,
-        1 => t.pipeline = Some("P0".into()),
+        1 | 2 => t.pipeline = Some(["P0", "P0", "p0", "P1", "p1"][rng.below(5) as usize].into()),
         _ => {}
     }
     (
